@@ -339,11 +339,22 @@ func parseBalanceChange(rawData []byte, sl types.StakerList) (map[string]int, er
 		for i := 7; i >= 0; i-- {
 			index++
 			if (b>>i)&1 == 1 {
+				// a payload is applied again whenever its round is carried forward, against the staker list of that
+				// time: an index beyond the list or a stream shorter than the bitmap demands is an error, not a panic
+				if index >= len(sl.StakerAddrs) {
+					return stakerChanges, errors.New("balance change refers to an index beyond the staker list")
+				}
+				if byteIndex >= len(changes) {
+					return stakerChanges, errors.New("balance change data is shorter than the index bitmap demands")
+				}
 				lenValue := changes[byteIndex] << bitOffset
 				bitsLeft := 8 - bitOffset
 				lenValue >>= (8 - lengthBits)
 				if bitsLeft < lengthBits {
 					byteIndex++
+					if byteIndex >= len(changes) {
+						return stakerChanges, errors.New("balance change data is shorter than the index bitmap demands")
+					}
 					lenValue |= changes[byteIndex] >> (8 - lengthBits + bitsLeft)
 					bitOffset = lengthBits - bitsLeft
 				} else {
@@ -364,6 +375,9 @@ func parseBalanceChange(rawData []byte, sl types.StakerList) (map[string]int, er
 				bitsExtracted := 0
 				stakerChange := 0
 				for bitsExtracted < int(lenValue) {
+					if byteIndex >= len(changes) {
+						return stakerChanges, errors.New("balance change data is shorter than the index bitmap demands")
+					}
 					bitsLeft := 8 - bitOffset
 					byteValue := changes[byteIndex] << bitOffset
 					if (int(lenValue) - bitsExtracted) < bitsLeft {
